@@ -490,3 +490,179 @@ def predicate_expr(facts, fn, rl, owners, param=1):
     for a in accepting[1:]:
         e = "| %s %s" % (e, conj(a))
     return e, names
+
+
+# --------------------------------------------------------------------------- finite evaluation of pure integer tests
+
+def eval_pure(fn, start_block, start_stmt, env, stop):
+    """Evaluate straight-line integer/boolean MIR (assignments of use/bin/un/cast over known locals, switches) from
+    (start_block, start_stmt) under `env` {local: int}.  Stops when control reaches a block for which stop(block)
+    returns a label (that label is returned), or at a call/return (returns ('term', block)).  Unknown values used
+    in a switch raise CheckError: only code whose control depends on the given locals through comparisons is
+    supported (predicate abstraction over a finite domain, no execution of sophia code)."""
+    env = dict(env)
+    bi, si = start_block, start_stmt
+    steps = 0
+
+    def val(op):
+        if op[0] == "k":
+            c = op[1]
+            if c.get("kind") == "int":
+                return int(c["v"])
+            return None
+        p = op[1]
+        if len(p) == 1:
+            return env.get(p[0])
+        return None
+    masks = {"u8": 0xFF, "u16": 0xFFFF, "u32": 0xFFFFFFFF}
+    while steps < 10000:
+        steps += 1
+        if si == 0:
+            lab = stop(bi)
+            if lab is not None:
+                return lab
+        b = fn.blocks[bi]
+        for s in b["s"][si:]:
+            if s[0] != "=" or len(s[1]) != 1:
+                continue
+            rv = s[2]
+            d = s[1][0]
+            if rv[0] == "use":
+                env[d] = val(rv[1])
+            elif rv[0] == "bin":
+                a, c = val(rv[2]), val(rv[3])
+                if a is None or c is None:
+                    env[d] = None
+                else:
+                    op = rv[1]
+                    r = {"Eq": a == c, "Ne": a != c, "Lt": a < c, "Le": a <= c, "Gt": a > c, "Ge": a >= c}.get(op)
+                    if r is not None:
+                        env[d] = int(r)
+                    elif op == "BitAnd":
+                        env[d] = a & c
+                    elif op == "BitOr":
+                        env[d] = a | c
+                    elif op == "BitXor":
+                        env[d] = a ^ c
+                    elif op in ("Sub", "SubUnchecked"):
+                        env[d] = a - c
+                    elif op in ("Add", "AddUnchecked"):
+                        env[d] = a + c
+                    else:
+                        env[d] = None
+            elif rv[0] == "un" and rv[1] == "Not":
+                a = val(rv[2])
+                env[d] = None if a is None else (1 - a if a in (0, 1) else None)
+            elif rv[0] == "cast" and rv[1] in ("IntToInt",):
+                env[d] = val(rv[2])
+            else:
+                env[d] = None
+        t = b["t"]
+        k = t["t"]
+        if k == "goto":
+            bi, si = t["to"], 0
+            continue
+        if k == "switch":
+            v = val(t["on"])
+            if v is None:
+                raise CheckError("%s: control depends on a value that is not a function of the analysed byte (bb%d)" % (fn.name, bi))
+            nxt = t["else"]
+            for sv, tb in t["vals"]:
+                if int(sv) == v:
+                    nxt = tb
+            bi, si = nxt, 0
+            continue
+        if k == "assert":
+            bi, si = t["to"], 0
+            continue
+        return ("term", bi)
+    raise CheckError("%s: evaluation did not terminate" % fn.name)
+
+
+# --------------------------------------------------------------------------- emission templates (what a writer emits, per path)
+
+def enumerate_paths(fn, start, on_call, max_paths=400, follow_errors=False):
+    """All acyclic success paths from block `start` to a return.  `on_call(term)` maps a call terminator to a token
+    (or None).  `?` is followed on its Continue edge only.  Returns [(conds, tokens)] where conds records the boolean /
+    Option / enum decisions taken: (description, outcome)."""
+    out = []
+
+    def describe(o):
+        if o[0] == "call":
+            f = o[1]["f"]
+            return (f.get("res_name") or f.get("name") or "?").split("<")[0] if False else (f.get("name") or "?")
+        if o[0] == "param":
+            return "param%d" % o[1]
+        return o[0]
+
+    def walk(bi, conds, toks, seen):
+        if len(out) > max_paths:
+            raise CheckError("%s: too many paths" % fn.name)
+        if bi in seen:
+            raise CheckError("%s: loop met while enumerating emission paths (bb%d)" % (fn.name, bi))
+        seen = seen | {bi}
+        b = fn.blocks[bi]
+        t = b["t"]
+        k = t["t"]
+        if k == "ret":
+            out.append((conds, toks))
+            return
+        if k in ("goto", "drop", "assert"):
+            return walk(t["to"], conds, toks, seen)
+        if k == "unreach" or k == "resume":
+            return
+        if k == "call":
+            if t["to"] is None:
+                return          # diverges (panic)
+            tok = on_call(t)
+            if tok is not None:
+                toks = toks + [tok]
+            return walk(t["to"], conds, toks, seen)
+        if k == "switch":
+            bs = bool_switch(fn, bi)
+            if bs:
+                o = bs[0]
+                d = describe(o)
+                if o[0] == "const":
+                    v = o[1].get("v") == "1"
+                    return walk(bs[1] if v else bs[2], conds, toks, seen)
+                walk(bs[1], conds + [(d, True, o)], toks, seen)
+                walk(bs[2], conds + [(d, False, o)], toks, seen)
+                return
+            var = t.get("variants")
+            o = fn.origin(t["on"])
+            src = None
+            if o[0] == "rvalue" and o[1][0] == "discr":
+                sd = fn.single_def(o[1][1][0])
+                if sd is not None and sd[2][0] == "call":
+                    src = ("call", sd[2][1], sd[0])
+            if var and var["enum"] == "core::ops::control_flow::ControlFlow" and not follow_errors:
+                for v, tb in t["vals"]:
+                    if var["names"].get(v) == "Continue":
+                        return walk(tb, conds, toks, seen)
+                return walk(t["else"], conds, toks, seen)
+            names = var["names"] if var else {}
+            d = describe(src) if src else "switch"
+            taken = set()
+            for v, tb in t["vals"]:
+                taken.add(v)
+                walk(tb, conds + [(d, names.get(v, v), src)], toks, seen)
+            rest = [n for v, n in names.items() if v not in taken]
+            if not var or rest:
+                # the otherwise edge stands for the remaining variants
+                tgt = fn.blocks[t["else"]]
+                if tgt["t"]["t"] != "unreach":
+                    walk(t["else"], conds + [(d, "|".join(sorted(rest)) or "otherwise", src)], toks, seen)
+            return
+        raise CheckError("%s: unsupported terminator %s" % (fn.name, k))
+    walk(start, [], [], frozenset())
+    return out
+
+
+def const_bytes_of(fn, operand):
+    """string value of a byte/str constant operand (through unsize casts), else None"""
+    o = provenance(fn, operand, transparent=())[-1]
+    if o[0] == "const" and o[1].get("kind") == "str":
+        v = o[1]["v"]
+        return v if isinstance(v, str) else bytes(v).decode("latin-1")
+    return None
